@@ -75,6 +75,15 @@ def rule_c04(an, res):
                 if k == 'INSERT':
                     for b in ops.find_bodies(top, m):
                         check_refile(res, prop, cm, roles, m, b)
+                if k == 'CFG':
+                    # "the TTL in force for that write" is whatever update_ttl stored: it must store its argument, always
+                    effs = top.state_effects()
+                    ok = (len(effs) == 1 and effs[0].kind == 'CFG' and effs[0].field == roles.ttl and effs[0].direct
+                          and effs[0].val == ('p', m.params[0].get('name')))
+                    res.ob('R-CFG-ONLY', ok=ok)
+                    if not ok:
+                        V(res, prop, 'R-CFG-ONLY', cm, m.key(), 'update_ttl does not unconditionally store the new duration',
+                          first_site(effs, top, m), 'path [%s] effects: %s' % (' '.join(top.valuation()), [repr(e) for e in effs][:4]))
         if cm.name in ('ut_map', 'ut_set'):
             check_ord_witness_B(an, res, prop, cm, roles)
         # tlru/utlru lookups test the found entry's own deadline: no ordering premise needed for C04
